@@ -10,7 +10,7 @@ BUILT = {
          "Real threads: the interleaving is not owned, so ordering races are found only probabilistically (overlap is measured and reported); a single-thread variant makes the coverage half of the property deterministic. A verdict must reproduce twice. Power-loss model is a listed finding.", "4 C38"),
  "C23": ("fault_enumeration", "proptest mutation of valid encodings per decoder + byte-level corruption of the files of a real database, in child processes; libFuzzer campaigns (ASan) in the thorough tier",
          "20 decoder targets (record + extract_row under generated schemas, index key, varint, JSONB, array, composite, catalog bytes and file, WAL segment incl. frames with a matching checksum over a damaged header, table/index/meta/HNSW file headers, HNSW page, page header, leaf, interior, a cursor walk over a tree with one corrupted page, TOAST pointer, spill rows): valid encodings from the public encoders or from the files of a database built through SQL, then bit flips, truncation, insert/delete/splice and length-field edits biased to header bytes, plus raw bytes. File corruption: a multi-table database (indexes, JSONB, TOAST values, HNSW index, deletes; a cleanly closed image and a crash image with a live WAL) gets 1..8 edits biased to file headers, page headers, slot arrays and cell areas or a truncation, then is opened and every scan / index probe runs. Each call must return a value or Err.",
-         "Signature = decoder (source file) + enclosing function + message class; 20 unchecked accessors of JsonbView / ArrayView / CompositeView / HNSW pages, the TOAST total_size allocation and two non-termination defects (cyclic leaf chain, cyclic child pointer) are listed findings. A hang is exit 2 unless it is the listed one. Five bounds-check fixes are proposed as diffs.", "4 C23"),
+         "Signature = decoder (source file) + enclosing function + message class; 20 unchecked accessors of JsonbView / ArrayView / CompositeView / HNSW pages, the TOAST total_size allocation and two non-termination defects (cyclic leaf chain, cyclic child pointer) are listed findings. A hang is exit 2 unless it is the listed one. Six bounds-check repairs were applied as fix commits.", "4 C23"),
  "C22": ("exploration", "proptest + corpus replay in child processes (panic capture, abort/stack-overflow/allocation-failure detection, hang watchdog); libFuzzer campaigns in the thorough tier",
          "Every SQL literal harvested from the repository's tests/examples/README is replayed, then generated cases: mutated corpus statements, grammar-generated statements of the dialect (SELECT with expressions, ~100 functions, joins, subqueries, CTEs, set operations; DML with RETURNING / ON CONFLICT; DDL; PRAGMA with odd values; transaction control) with token-level mutations and extreme literals, and API call sequences (open again, clone, prepare/bind with any arity, batch inserts with ragged rows, pragmas, close, use after close, drop without close), each against a private copy of a template database through prepare / bind / execute / execute_with_params / query. Every call must return Ok or Err.",
          "Cases run in child processes (RLIMIT_AS 4 GiB, 8 MiB stack). Listed panics are tolerated by signature; the generator feature deep_nesting (thousands of nesting levels / gigabyte-sized results) is excluded while the stack-overflow and unbounded-allocation findings are open. A hang is exit 2, not a violation.", "4 C22"),
